@@ -1235,6 +1235,39 @@ theorem average_link_attribute_spec {x : NetA} {σ : AbsA} (h : ReprsA x σ) (a 
     intro j hj
     exact hfv i j (List.mem_range.1 hi) (List.mem_range.1 hj)
 
+/-- **`SpatialNetwork.Load` / `GeoNetwork.Load` of any simple igraph object with named
+attributes** (a file somebody else wrote: edges in its own order; vertex weights stored or
+not): the network is rebuilt from the dense adjacency matrix, gets the stored weights — else
+the ones the constructor assigned (`geoW`), else ones —, and adopts the graph object (edge
+order included) with its whole attribute dictionary; it represents the state the object
+lists.  (Round 2 had this for objects written by `save`, one anonymous attribute.) -/
+theorem spatial_load_named (h : IGraphA) (hs : SimpleIG h) (gw : Option (Option (List Rat)))
+    (hgw : ∀ x, gw = some (some x) → x.length = h.g.n) :
+    ∃ x, loadViaAdjacencyA h gw = .ok x
+      ∧ ReprsA x { absOf h with w := loadedWeights h.g.n h.g.vw gw }
+      ∧ x.core.N = h.g.n ∧ x.core.graph = h.g.edges ∧ x.attrs = h.attrs := by
+  obtain ⟨x, a, b, c, _, d, e⟩ := loadViaAdjacencyA_reprs_of h hs gw hgw
+    { absOf h with w := loadedWeights h.g.n h.g.vw gw } rfl (fun _ _ _ _ => rfl) rfl rfl
+    (attrOK_absOf h)
+  exact ⟨x, a, b, c, d, e⟩
+
+/-- … and the order of the edge ids in that file is not observable either: the reordered
+object loads to an object representing the same state -/
+theorem spatial_load_order_irrelevant (h h' : IGraphA) (hs : SimpleIG h) (hr : Reordered h h')
+    (gw : Option (Option (List Rat))) (hgw : ∀ x, gw = some (some x) → x.length = h.g.n) :
+    ∃ x x', loadViaAdjacencyA h gw = .ok x ∧ loadViaAdjacencyA h' gw = .ok x'
+      ∧ ReprsA x { absOf h with w := loadedWeights h.g.n h.g.vw gw }
+      ∧ ReprsA x' { absOf h with w := loadedWeights h.g.n h.g.vw gw }
+      ∧ x'.core.N = x.core.N := by
+  obtain ⟨x, a, b, c, _⟩ := spatial_load_named h hs gw hgw
+  obtain ⟨x', a', b', c', _⟩ := loadViaAdjacencyA_reprs_of h' (simpleIG_reordered hs hr) gw
+    (fun y hy => by rw [hr.n]; exact hgw y hy)
+    { absOf h with w := loadedWeights h.g.n h.g.vw gw } hr.d
+    (fun i j _ _ => by rw [hr.d]; exact rel_perm _ _ _ hr.edges i j)
+    (by show loadedWeights h'.g.n h'.g.vw gw = loadedWeights h.g.n h.g.vw gw; rw [hr.n, hr.vw])
+    hr.vw (attrOK_reordered hs hr)
+  exact ⟨x, x', a, a', b, b', by rw [c, c', hr.n]⟩
+
 /-! non-vacuity, round 3 -/
 
 /-- two attributes at once on the path-plus-isolated-node network; an undirected copy in the
